@@ -11,14 +11,14 @@ open List (Forall₂)
 
 /-! ### `outAt` at natural positions and on appended lists -/
 
-theorem outAt_nat (l : List (Res Val)) (j : Nat) :
+theorem outAt_natC (l : List (Res Val)) (j : Nat) :
     outAt l (j : Int) = match l[j]? with | some o => o | none => .error .indexError := by
   unfold outAt; rw [pyIndex_nat]; cases l[j]? <;> rfl
 
 theorem outAt_append_left (a b : List (Res Val)) (i : Int) (h0 : 0 ≤ i) (h : i < a.length) :
     outAt (a ++ b) i = outAt a i := by
   obtain ⟨j, rfl⟩ := Int.eq_ofNat_of_zero_le h0
-  rw [outAt_nat, outAt_nat, List.getElem?_append_left (by omega)]
+  rw [outAt_natC, outAt_natC, List.getElem?_append_left (by omega)]
 
 theorem outAt_append_right (a b : List (Res Val)) (i : Int) (h : (a.length : Int) ≤ i) :
     outAt (a ++ b) i = outAt b (i - a.length) := by
@@ -26,7 +26,7 @@ theorem outAt_append_right (a b : List (Res Val)) (i : Int) (h : (a.length : Int
   obtain ⟨j, rfl⟩ := Int.eq_ofNat_of_zero_le h0
   have hj : a.length ≤ j := by omega
   have e : ((j : Int) - (a.length : Int)) = ((j - a.length : Nat) : Int) := by omega
-  rw [e, outAt_nat, outAt_nat, List.getElem?_append_right hj]
+  rw [e, outAt_natC, outAt_natC, List.getElem?_append_right hj]
 
 /-! ### duplicates -/
 
@@ -334,5 +334,251 @@ theorem rel_mkTile {d d' : DS} {r : RefDS} {n : Nat} (h : Rel d r) (hm : mkTile 
     simp only [mkTile] at hm
     cases hm
     exact ⟨Ref.concat (List.replicate (n + 2) r), rfl, rel_concat (forall₂_replicate h (n + 2))⟩
+
+/-! ### zip: rows of outcomes -/
+
+/-- row `i` of a positional zip: the tuple of the parts' outcomes at `i`, first failure wins -/
+def rowAt (ls : List (List (Res Val))) (i : Int) : Res Val := do
+  let row ← ls.mapM (fun l => outAt l i)
+  .ok (.tup row)
+
+theorem zipOuts_succ (ls : List (List (Res Val))) (n : Nat) :
+    Ref.zipOuts ls (n + 1) = Ref.zipOuts ls n ++ [rowAt ls (n : Int)] := rfl
+
+theorem zipOuts_length (ls : List (List (Res Val))) (n : Nat) : (Ref.zipOuts ls n).length = n := by
+  induction n with
+  | zero => rfl
+  | succ n ih => rw [zipOuts_succ, List.length_append, ih]; rfl
+
+theorem zipOuts_getElem? (ls : List (List (Res Val))) (n t : Nat) (h : t < n) :
+    (Ref.zipOuts ls n)[t]? = some (rowAt ls (t : Int)) := by
+  induction n with
+  | zero => omega
+  | succ n ih =>
+    rw [zipOuts_succ]
+    by_cases ht : t < n
+    · rw [List.getElem?_append_left (by rw [zipOuts_length]; exact ht)]
+      exact ih ht
+    · have : t = n := by omega
+      subst this
+      rw [List.getElem?_append_right (by rw [zipOuts_length]; exact Nat.le_refl _)]
+      simp [zipOuts_length]
+
+theorem mapM_congr_mem {α β} (f g : α → Res β) (l : List α) (h : ∀ a ∈ l, f a = g a) :
+    l.mapM f = l.mapM g := by
+  induction l with
+  | nil => rfl
+  | cons a l ih =>
+    simp only [List.mapM_cons, h a (by simp), ih (fun a' ha' => h a' (by simp [ha']))]
+
+theorem mapM_error_mem {α β} (f : α → Res β) (l : List α) (e : Err) (h : l.mapM f = .error e) :
+    ∃ a ∈ l, f a = .error e := by
+  induction l with
+  | nil => simp only [List.mapM_nil] at h; cases h
+  | cons a l ih =>
+    simp only [List.mapM_cons] at h
+    cases hfa : f a with
+    | error e' =>
+      rw [hfa] at h
+      cases h
+      exact ⟨a, by simp, hfa⟩
+    | ok b =>
+      rw [hfa] at h
+      cases hl : l.mapM f with
+      | error e' =>
+        rw [hl] at h
+        cases h
+        obtain ⟨a', ha', hf'⟩ := ih hl
+        exact ⟨a', by simp [ha'], hf'⟩
+      | ok bs => rw [hl] at h; cases h
+
+theorem rowAt_error (ls : List (List (Res Val))) (i : Int) (e : Err) (h : rowAt ls i = .error e) :
+    ∃ l ∈ ls, outAt l i = .error e := by
+  unfold rowAt at h
+  cases hm : ls.mapM (fun l => outAt l i) with
+  | error e' =>
+    rw [hm] at h
+    cases h
+    exact mapM_error_mem _ _ _ hm
+  | ok row => rw [hm] at h; cases h
+
+theorem rowAt_head_error (l : List (Res Val)) (ls : List (List (Res Val))) (i : Int) (e : Err)
+    (h : outAt l i = .error e) : rowAt (l :: ls) i = .error e := by
+  simp only [rowAt, List.mapM_cons, h]
+  rfl
+
+/-- the positional clause of `ZipDataset.__getitem__`: every part is asked for `i`, left to right -/
+theorem rowAt_eq_outAt (ls : List (List (Res Val))) (n : Nat) (hne : ls ≠ [])
+    (hlen : ∀ l ∈ ls, l.length = n) (i : Int) : rowAt ls i = outAt (Ref.zipOuts ls n) i := by
+  have hzl := zipOuts_length ls n
+  by_cases h0 : 0 ≤ i
+  · obtain ⟨t, rfl⟩ := Int.eq_ofNat_of_zero_le h0
+    by_cases ht : t < n
+    · rw [outAt_natC, zipOuts_getElem? ls n t ht]
+    · rw [outAt_ge _ _ (by rw [hzl]; omega)]
+      cases ls with
+      | nil => exact absurd rfl hne
+      | cons l ls =>
+        exact rowAt_head_error l ls _ _ (outAt_ge _ _ (by rw [hlen l (by simp)]; omega))
+  · by_cases hlo : i < -(n : Int)
+    · rw [outAt_lt_neg _ _ (by rw [hzl]; exact hlo)]
+      cases ls with
+      | nil => exact absurd rfl hne
+      | cons l ls =>
+        exact rowAt_head_error l ls _ _ (outAt_lt_neg _ _ (by rw [hlen l (by simp)]; exact hlo))
+    · -- wrapped position `i + n`
+      have hw : outAt (Ref.zipOuts ls n) i = outAt (Ref.zipOuts ls n) (i + n) := by
+        have := outAt_wrap (Ref.zipOuts ls n) (i + n) (by omega) (by rw [hzl]; omega)
+        rw [← this, hzl]; congr 1; omega
+      have hr : rowAt ls i = rowAt ls (i + n) := by
+        unfold rowAt
+        rw [mapM_congr_mem (fun l => outAt l i) (fun l => outAt l (i + n)) ls]
+        intro l hl
+        have hl' := hlen l hl
+        have := outAt_wrap l (i + n) (by omega) (by rw [hl']; omega)
+        rw [← this, hl']; congr 1; omega
+      rw [hw, hr]
+      obtain ⟨t, ht⟩ := Int.eq_ofNat_of_zero_le (show 0 ≤ i + n by omega)
+      rw [ht, outAt_natC, zipOuts_getElem? ls n t (by omega)]
+
+theorem tupleGet_eq_rowAt {ds : List DS} {rs : List RefDS} (h : Forall₂ Rel ds rs)
+    (hi : ∀ r ∈ rs, r.indexable = true) (i : Int) :
+    tupleGet ds (·.getInt i) = rowAt (rs.map (·.outs)) i := by
+  have : ds.mapM (·.getInt i) = (rs.map (·.outs)).mapM (fun l => outAt l i) := by
+    induction h with
+    | nil => rfl
+    | @cons d r ds rs hr _ ih =>
+      simp only [List.map_cons, List.mapM_cons, (hr.idx (hi r (by simp))).2 i,
+        ih (fun r' hr' => hi r' (by simp [hr']))]
+  simp only [tupleGet, rowAt, this]
+
+theorem forall₂_map_iter {ds : List DS} {rs : List RefDS} (h : Forall₂ Rel ds rs) :
+    ds.map (·.iter) = rs.map (·.stream) := by
+  induction h with
+  | nil => rfl
+  | cons hr _ ih => simp only [List.map_cons, hr.iter, ih]
+
+theorem forall₂_rel_of_mem {ds : List DS} {rs : List RefDS} (h : Forall₂ Rel ds rs) :
+    ∀ r ∈ rs, ∃ d, Rel d r := by
+  induction h with
+  | nil => intro r hr; cases hr
+  | @cons d r' _ _ hr' _ ih =>
+    intro r hr
+    rcases List.mem_cons.1 hr with rfl | hm
+    · exact ⟨d, hr'⟩
+    · exact ih r hm
+
+/-! ### zip refines the positional zip of the outcome lists -/
+
+theorem rel_zip {ds : List DS} {rs : List RefDS} (h : Forall₂ Rel ds rs) (hne : ds ≠ [])
+    (hsame : ∃ n, ∀ r ∈ rs, r.len = .ok n) : Rel (zipDS ds) (Ref.zip rs) := by
+  obtain ⟨n, hn⟩ := hsame
+  cases h with
+  | nil => exact absurd rfl hne
+  | @cons d r ds' rs' hr ht =>
+    have h : Forall₂ Rel (d :: ds') (r :: rs') := .cons hr ht
+    -- when everything is indexable, all outcome lists have length `n`
+    have houts : (∀ r' ∈ r :: rs', r'.indexable = true) →
+        ∀ l ∈ (r :: rs').map (·.outs), l.length = n := by
+      intro hi l hl
+      obtain ⟨r', hr', rfl⟩ := List.mem_map.1 hl
+      have h1 := forall₂_len_outs h r' hr' (hi r' hr')
+      have h2 := hn r' hr'
+      rw [h1] at h2
+      injection h2
+    refine
+      { indexable := forall₂_all_indexable h, len := hr.len, keys := rfl, iter := ?_, iterK := rfl,
+        idx := ?_, noIdxErr := ?_, keysLen := ?_, getKey := ?_ }
+    · simp only [zipDS, Ref.zip, forall₂_map_iter h]
+    · intro hix
+      have hi := all_indexable_mem hix
+      have hl := houts hi
+      have hrn : r.outs.length = n := hl r.outs (by simp)
+      refine ⟨?_, ?_⟩
+      · simp only [Ref.zip, zipOuts_length]
+        exact (hr.idx (hi r (by simp))).1
+      · intro i
+        simp only [zipDS, Ref.zip, hrn]
+        rw [tupleGet_eq_rowAt h hi i]
+        exact rowAt_eq_outAt _ n (by simp) hl i
+    · intro hix o ho
+      have hi := all_indexable_mem hix
+      have hl := houts hi
+      have hrn : r.outs.length = n := hl r.outs (by simp)
+      simp only [Ref.zip, hrn] at ho
+      obtain ⟨t, ht, hto⟩ := List.getElem_of_mem ho
+      rw [zipOuts_length] at ht
+      have hrow : o = rowAt ((r :: rs').map (·.outs)) (t : Int) := by
+        have := zipOuts_getElem? ((r :: rs').map (·.outs)) n t ht
+        rw [List.getElem?_eq_getElem (by rw [zipOuts_length]; exact ht)] at this
+        injection this with this
+        rw [← hto, this]
+      intro hbad
+      rw [hrow] at hbad
+      obtain ⟨l, hlmem, hle⟩ := rowAt_error _ _ _ hbad
+      obtain ⟨r', hr', rfl⟩ := List.mem_map.1 hlmem
+      obtain ⟨d', hd'⟩ := forall₂_rel_of_mem h r' hr'
+      have hlt : t < r'.outs.length := by rw [hl _ hlmem]; exact ht
+      rw [outAt_lt _ t hlt] at hle
+      exact hd'.noIdxErr (hi r' hr') _ (List.getElem_mem hlt) hle
+    · intro _ ks hk; cases hk
+    · intro _ ks hk; cases hk
+
+/-! ### `ZipDataset.__init__` -/
+
+theorem ref_allLens_mem {rs : List RefDS} {lens : List Nat} (h : Ref.allLens rs = .ok lens) :
+    ∀ r ∈ rs, ∃ a ∈ lens, r.len = .ok a := by
+  induction rs generalizing lens with
+  | nil => intro r hr; cases hr
+  | cons r0 rs ih =>
+    simp only [Ref.allLens] at h
+    cases h0 : r0.len with
+    | error e => rw [h0] at h; cases h
+    | ok a =>
+      rw [h0] at h
+      cases h1 : Ref.allLens rs with
+      | error e => rw [h1] at h; cases h
+      | ok as =>
+        rw [h1] at h
+        cases h
+        intro r hr
+        rcases List.mem_cons.1 hr with rfl | hm
+        · exact ⟨a, by simp, h0⟩
+        · obtain ⟨b, hb, hrb⟩ := ih h1 r hm
+          exact ⟨b, by simp [hb], hrb⟩
+
+theorem allEq_mem {lens : List Nat} (h : allEq lens = true) : ∀ a ∈ lens, a = lens.headD 0 := by
+  cases lens with
+  | nil => intro a ha; cases ha
+  | cons a0 rest =>
+    intro a ha
+    simp only [allEq, List.all_eq_true, beq_iff_eq] at h
+    rcases List.mem_cons.1 ha with rfl | hm
+    · rfl
+    · exact h a hm
+
+theorem rel_mkZip {ds : List DS} {rs : List RefDS} {d : DS} (h : Forall₂ Rel ds rs)
+    (hm : mkZip ds = .ok d) : ∃ r, Ref.mkZip rs = .ok r ∧ Rel d r := by
+  cases h with
+  | nil => cases hm
+  | @cons d0 r0 ds' rs' hr ht =>
+    have h : Forall₂ Rel (d0 :: ds') (r0 :: rs') := .cons hr ht
+    have hal := allLens_eq h
+    simp only [mkZip, List.isEmpty_cons, Bool.false_eq_true, if_false] at hm
+    simp only [Ref.mkZip, List.isEmpty_cons, Bool.false_eq_true, if_false, ← hal]
+    cases hl : allLens (d0 :: ds') with
+    | error e => rw [hl] at hm; cases hm
+    | ok lens =>
+      rw [hl] at hm
+      simp only [bind, Except.bind] at hm ⊢
+      cases he : allEq lens with
+      | false => rw [he] at hm; cases hm
+      | true =>
+        rw [he] at hm
+        cases hm
+        refine ⟨Ref.zip (r0 :: rs'), rfl, rel_zip h (by simp) ⟨lens.headD 0, ?_⟩⟩
+        intro r hr
+        obtain ⟨a, ha, hra⟩ := ref_allLens_mem (hal ▸ hl) r hr
+        rw [hra, allEq_mem he a ha]
 
 end LazyDs
